@@ -29,10 +29,10 @@ FLOORS = {'quick': {'conclusive': 250, 'distinct_nontrivial': 100,
                     'counters': {'operations': 8000, 'view_checks': 8000, 'removals_ok': 800, 'reassignments': 800,
                                  'refusals_expected': 500, 'duplicate_adds': 200, 'missing_node_adds': 150,
                                  'links_for_node_compared': 30000, 'graph_compared': 8000}},
-          'thorough': {'conclusive': 5000, 'distinct_nontrivial': 2000,
-                       'counters': {'operations': 300000, 'view_checks': 300000, 'removals_ok': 30000, 'reassignments': 30000,
-                                    'refusals_expected': 18000, 'duplicate_adds': 7000, 'missing_node_adds': 5000,
-                                    'links_for_node_compared': 1000000, 'graph_compared': 300000}}}
+          'thorough': {'conclusive': 1000, 'distinct_nontrivial': 800,
+                       'counters': {'operations': 60000, 'view_checks': 60000, 'removals_ok': 5000, 'reassignments': 5000,
+                                    'refusals_expected': 3000, 'duplicate_adds': 1200, 'missing_node_adds': 800,
+                                    'links_for_node_compared': 150000, 'graph_compared': 60000}}}
 CASE_TIMEOUT = {'quick': 180, 'thorough': 600}
 
 VALVE_TYPES = ['PRV', 'PSV', 'PBV', 'FCV', 'TCV', 'GPV']
@@ -40,7 +40,7 @@ CURVE_TYPES = ['HEAD', 'EFFICIENCY', 'VOLUME', 'HEADLOSS']
 
 
 def n_cases(tier):
-    return 400 if tier == 'quick' else 8000
+    return 400 if tier == 'quick' else 3000
 
 
 # ------------------------------------------------------------------------------------------------
@@ -828,7 +828,7 @@ def run_case(c, rng):
              (op_remove_pattern, 5), (op_remove_curve, 5), (op_remove_source, 2), (op_remove_control, 3), (op_reassign_end, 8),
              (op_reassign_ref, 9), (op_duplicate_add, 3), (op_missing_node_add, 2)]
     weights = [w for _, w in table]
-    n_ops = rng.randint(10, 60) if c.tier == 'quick' else rng.randint(20, 200)
+    n_ops = rng.randint(10, 60) if c.tier == 'quick' else rng.randint(20, 120)
     if big:
         n_ops = min(n_ops, 25)
     full_check('start (%s)' % start)
